@@ -1,19 +1,29 @@
-// C11 harness: tests run through a real TestRegistry, some of them in a separate process.
-// Scenario (see checks/C11.py):   [:ri] <all_sep 0|1> <ntests> ([:ign] test)*
+// C11 harness: tests run through a real TestRegistry, some of them in a separate process; one or several runAllTests passes.
+// Scenario (see checks/C11.py):   [:ri] <all_sep 0|1> <ntests> ([:ign] test)*                                  one pass
+//                             |   :m <nsteps> step*                                                         several passes over ONE registry
+//   step ::= <sep 0|1> <ri 0|1> <nadd> ([:from <k>] [:own] [:ign] test)*nadd
+//           before the pass: TestRegistry::setRunTestsInSeperateProcess() if sep, TestRegistry::setRunIgnored() if ri, then the
+//           listed tests are added (addTest in reverse, so that they are met in the listed order, in front of all older tests);
+//           then runAllTests with a TestResult of its own.  :from k = the test is an empty passing test in the passes before pass k
+//           (passes count from 0);  :own = the shell gets UtestShell::setRunInSeperateProcess() when it is made
 //   :ri   = registry-wide run-ignored switch (TestRegistry::setRunIgnored, "-ri");  :ign = the test is an IGNORE_TEST (its shell
 //           derives from IgnoredUtestShell)
 //   test ::= :plain <fail 0|1>
 //          | :scr <fork_ok 0|1> <n> wout*n         wout ::= :ei | :er <errno> | :x <k> | :k <sig> <core 0|1> | :s <sig> | :c
 //          | :real <n> act*n (x5: plugin pre action, setup, body, teardown, plugin post action) <n> inj*n
 //                                                  act ::= :r <sig> | :e <k> | :f        inj ::= :ei | :er | :re
-// Observation:  per test  ":t <started> <nf> cat*nf <waitpid calls> <SIGCONT seen> <lost>"   cat ::= :x | :k <sig> | :s | :fk | :wi | :w | :ck | :o
-//               then      ":end <failure count> <isFailure> <run count> <ignored count> <late>"
+// Observation, per pass:  per test met ":t <started> <nf> cat*nf <waitpid calls> <SIGCONT seen> <lost>"   cat ::= :x | :k <sig> | :s | :fk | :wi | :w | :ck | :o
+//                         then         ":end <failure count> <isFailure> <run count> <ignored count> <late>"
+//              and, if the runner's own process did not live through all the passes,  ":died <pass> :killed|:exited|:stopped <n>"
+// Every scenario is run in a runner process of its own under this harness as supervisor (fork, waitpid with WUNTRACED): a test
+// that is executed in the runner's own process and kills, ends or stops it is SEEN -- as ":died" -- instead of taking the harness
+// down; the passes that were over by then are still reported.
 // <started> of a test that is to run in a separate process: the runner asked for a child; of a test run in the current process and
 // of an ignored test that is not to run at all: it reached its first action point (plugin pre action) or a child was asked for.
-// Separate process: with all_sep = 0 scripted and real tests carry their own flag (UtestShell::setRunInSeperateProcess); with
-// all_sep = 1 NO test carries its own flag, every child comes from the registry-wide flag alone.
+// Separate process: a one-pass line with all_sep = 0 gives scripted and real tests a flag of their own (:own); with all_sep = 1 NO
+// test carries its own flag, every child comes from the registry-wide flag alone.
 // Scripted tests replace PlatformSpecificFork / PlatformSpecificWaitPid by stubs replaying the outcome list (errno set); the "child"
-// pid they report is the harness' own pid, so the runner's kill(pid, SIGCONT) is counted by a SIGCONT handler.  Real tests fork;
+// pid they report is the runner's own pid, so the runner's kill(pid, SIGCONT) is counted by a SIGCONT handler.  Real tests fork;
 // waitpid is the real one behind a wrapper that counts calls and can inject EINTR / an error in front of it.
 #include <unistd.h>
 #include <signal.h>
@@ -45,6 +55,8 @@ struct Wout { int kind; int status; };                  // 0 EINTR, 1 other erro
 struct TestDef {
     int kind;                                           // 0 plain, 1 scripted, 2 real
     bool ign;                                           // IGNORE_TEST
+    bool own;                                           // own separate-process flag
+    int from;                                           // shows its behaviour from this pass on
     bool fail, forkOk;
     std::vector<Wout> ws;
     std::vector<Act> ph[5];
@@ -53,10 +65,16 @@ struct TestDef {
     int calls, conts; pid_t cpid; bool forkCalled; bool lost;
     std::vector<std::string> cats;
 };
+struct Step { bool sep, ri; std::vector<int> add; };   // add: indices into gT, in the order in which the tests are to be met
 static std::vector<TestDef> gT;
+static std::vector<Step> gSteps;
 static int gCur = -1;
-static bool gAllSep, gRunIgn;
-static volatile unsigned char* gMarks;                  // shared with the children: test i reached its first action point
+static int gPass = 0;
+struct Shared { volatile int pass; volatile int late; volatile int done; volatile int chunks; volatile unsigned char marks[4000]; };
+static Shared* gSh;                                     // shared with the runner and its children
+#define gMarks (gSh->marks)                             // test i reached its first action point (in the current pass)
+static int effKind(int i) { return gPass < gT[i].from ? 0 : gT[i].kind; }          // before its pass a test is an empty passing test
+static bool effFail(int i) { return gPass < gT[i].from ? false : gT[i].fail; }
 static volatile sig_atomic_t gLate;
 static volatile pid_t gLiveChild;
 static bool gRunaway;
@@ -86,11 +104,11 @@ public:
     {
         if (gCur < 0) return;
         gMarks[gCur] = 1;
-        if (gT[gCur].kind == 2) interp(gT[gCur].ph[0], true, &r, &t);
+        if (effKind(gCur) == 2) interp(gT[gCur].ph[0], true, &r, &t);
     }
     void postTestAction(UtestShell& t, TestResult& r) CPPUTEST_OVERRIDE
     {
-        if (gCur >= 0 && gT[gCur].kind == 2) interp(gT[gCur].ph[4], true, &r, &t);
+        if (gCur >= 0 && effKind(gCur) == 2) interp(gT[gCur].ph[4], true, &r, &t);
     }
 };
 
@@ -99,13 +117,13 @@ class ScriptedUtest : public Utest
 public:
     int idx_;
     explicit ScriptedUtest(int i) : idx_(i) {}
-    void setup() CPPUTEST_OVERRIDE { if (gT[idx_].kind == 2) interp(gT[idx_].ph[1], false, 0, 0); }
+    void setup() CPPUTEST_OVERRIDE { if (effKind(idx_) == 2) interp(gT[idx_].ph[1], false, 0, 0); }
     void testBody() CPPUTEST_OVERRIDE
     {
-        if (gT[idx_].kind == 2) interp(gT[idx_].ph[2], false, 0, 0);
-        else if (gT[idx_].fail) FAIL("check failed");
+        if (effKind(idx_) == 2) interp(gT[idx_].ph[2], false, 0, 0);
+        else if (effFail(idx_)) FAIL("check failed");
     }
-    void teardown() CPPUTEST_OVERRIDE { if (gT[idx_].kind == 2) interp(gT[idx_].ph[3], false, 0, 0); }
+    void teardown() CPPUTEST_OVERRIDE { if (effKind(idx_) == 2) interp(gT[idx_].ph[3], false, 0, 0); }
 };
 class ScriptedShell : public UtestShell
 {
@@ -164,7 +182,7 @@ static int forkWrapper(void)
     if (gCur < 0) return -1;
     TestDef& d = gT[gCur];
     d.forkCalled = true;
-    if (d.kind == 1) {
+    if (effKind(gCur) == 1) {
         if (!d.forkOk) { errno = EAGAIN; return -1; }
         return (int)getpid();
     }
@@ -191,7 +209,7 @@ static int waitWrapper(int pid, int* status, int options)
         if (d.cpid > 0) kill(d.cpid, SIGKILL);
         PlatformSpecificLongJmp();
     }
-    if (d.kind == 1) {
+    if (effKind(gCur) == 1) {
         if (k >= (int)d.ws.size()) { *status = 0; return (int)getpid(); }
         const Wout& w = d.ws[k];
         if (w.kind == 0) { errno = EINTR; return -1; }
@@ -199,7 +217,7 @@ static int waitWrapper(int pid, int* status, int options)
         *status = w.status;
         return (int)getpid();
     }
-    if (k < (int)d.inj.size()) {
+    if (effKind(gCur) == 2 && k < (int)d.inj.size()) {          // faults are injected only while the test shows its behaviour
         if (d.inj[k] == 0) { errno = EINTR; return -1; }
         if (d.inj[k] == 1) { errno = EIO; return -1; }
     }
@@ -223,105 +241,184 @@ static std::vector<Act> parseActs(Toks& t)
     return v;
 }
 
+static TestDef parseTest(Toks& t)
+{
+    TestDef d; d.kind = 0; d.ign = false; d.own = false; d.from = 0; d.fail = false; d.forkOk = true;
+    d.calls = 0; d.conts = 0; d.cpid = 0; d.forkCalled = false; d.lost = false;
+    if (t.peek() == ":from") { t.next(); d.from = t.n(); }
+    if (t.peek() == ":own") { t.next(); d.own = true; }
+    if (t.peek() == ":ign") { t.next(); d.ign = true; }
+    std::string k = t.sym();
+    if (k == "plain") { d.kind = 0; d.fail = t.n() != 0; }
+    else if (k == "scr") {
+        d.kind = 1; d.forkOk = t.n() != 0;
+        int m = t.n();
+        for (int j = 0; j < m; j++) {
+            std::string wk = t.sym(); Wout w; w.kind = 2; w.status = 0;
+            if (wk == "ei") w.kind = 0;
+            else if (wk == "er") { w.kind = 1; w.status = t.n(); }      // errno of the failing wait
+            else if (wk == "x") w.status = (t.n() & 255) << 8;                       // the kernel's packing of a status word
+            else if (wk == "k") { int sg = t.n(); int core = t.n(); w.status = (sg & 127) | (core ? 128 : 0); }
+            else if (wk == "s") w.status = ((t.n() & 255) << 8) | 0x7f;
+            else if (wk == "c") w.status = 0xffff;
+            else { fprintf(stderr, "harness: bad outcome %s\n", wk.c_str()); exit(3); }
+            d.ws.push_back(w);
+        }
+    }
+    else if (k == "real") {
+        d.kind = 2;
+        for (int p = 0; p < 5; p++) d.ph[p] = parseActs(t);
+        int m = t.n();
+        for (int j = 0; j < m; j++) { std::string ik = t.sym(); d.inj.push_back(ik == "ei" ? 0 : ik == "er" ? 1 : 2); }
+    }
+    else { fprintf(stderr, "harness: bad test %s\n", k.c_str()); exit(3); }
+    return d;
+}
+
+static void parseScenario(Toks& t)
+{
+    gT.clear(); gSteps.clear();
+    if (t.peek() == ":m") {
+        t.next();
+        int ns = t.n();
+        if (ns > 64) { fprintf(stderr, "harness: too many passes\n"); exit(3); }
+        for (int k = 0; k < ns; k++) {
+            Step st; st.sep = t.n() != 0; st.ri = t.n() != 0;
+            int n = t.n();
+            for (int i = 0; i < n; i++) { st.add.push_back((int)gT.size()); gT.push_back(parseTest(t)); }
+            gSteps.push_back(st);
+        }
+    } else {
+        Step st; st.ri = false;
+        if (t.peek() == ":ri") { t.next(); st.ri = true; }
+        st.sep = t.n() != 0;
+        int n = t.n();
+        for (int i = 0; i < n; i++) {
+            TestDef d = parseTest(t);
+            d.own = d.kind != 0 && !st.sep;                   // own flag only without the registry-wide one
+            st.add.push_back((int)gT.size()); gT.push_back(d);
+        }
+        gSteps.push_back(st);
+    }
+    if (gT.size() > 4000) { fprintf(stderr, "harness: too many tests\n"); exit(3); }
+    if (!t.end()) { fprintf(stderr, "harness: trailing tokens\n"); exit(3); }
+}
+
+// the runner: one registry, the passes of the scenario one after the other; the observation of a pass is written when the pass is over
+static int runScenario()
+{
+    TestRegistry reg;
+    reg.setCurrentRegistry(&reg);
+    ActionPlugin plugin;
+    reg.installPlugin(&plugin);
+    std::vector<UtestShell*> shells(gT.size(), (UtestShell*)0);
+    std::vector<std::string> names;
+    for (size_t i = 0; i < gT.size(); i++) names.push_back("T" + std::to_string(i));
+    std::vector<int> present;                                // the tests of the registry, in the order in which a pass meets them
+    bool sepOn = false, riOn = false;                        // what the program has switched on so far
+    for (size_t k = 0; k < gSteps.size(); k++) {
+        const Step& st = gSteps[k];
+        gPass = (int)k; gSh->pass = (int)k;
+        if (st.sep) { reg.setRunTestsInSeperateProcess(); sepOn = true; }
+        if (st.ri) { reg.setRunIgnored(); riOn = true; }
+        for (int j = (int)st.add.size() - 1; j >= 0; j--) {  // addTest puts the new test in front
+            int i = st.add[j];
+            if (gT[i].ign) shells[i] = new IgnoredScriptedShell(i, names[i].c_str());
+            else shells[i] = new ScriptedShell(i, names[i].c_str());
+            if (gT[i].own) shells[i]->setRunInSeperateProcess();
+            reg.addTest(shells[i]);
+        }
+        present.insert(present.begin(), st.add.begin(), st.add.end());
+        for (size_t q = 0; q < present.size(); q++) {
+            TestDef& d = gT[present[q]];
+            d.calls = 0; d.conts = 0; d.cpid = 0; d.forkCalled = false; d.lost = false; d.cats.clear();
+        }
+        memset((void*)gMarks, 0, sizeof gSh->marks);
+        gCur = -1; gLate = 0; gRunaway = false; gLiveChild = 0;
+        size_t total = 0, runCount = 0, ignCount = 0; bool isFail = false;
+        {
+            RecOutput out;
+            TestResult result(out);                          // every pass has a result of its own (as every repetition of -r has)
+            setDeadline(deadlineMs());
+            reg.runAllTests(result);
+            setDeadline(0);
+            if (gLate) { gLates++; gSh->late = 1; }
+            total = result.getFailureCount(); runCount = result.getRunCount(); ignCount = result.getIgnoredCount(); isFail = result.isFailure();
+        }
+        gCur = -1;
+        // children the runner left behind
+        for (size_t q = 0; q < present.size(); q++) {
+            TestDef& d = gT[present[q]];
+            if (d.cpid <= 0) continue;
+            int cs = 0; pid_t r = waitpid(d.cpid, &cs, WNOHANG);
+            if (r == d.cpid) d.lost = true;
+            else if (r == 0) { d.lost = true; kill(d.cpid, SIGKILL); waitpid(d.cpid, &cs, 0); }
+        }
+        Out o;
+        for (size_t q = 0; q < present.size(); q++) {
+            int i = present[q];
+            TestDef& d = gT[i];
+            bool sepMode = d.own || sepOn;
+            bool started = (d.ign && !riOn) ? (d.forkCalled || gMarks[i] != 0)                 // not to run at all
+                         : (effKind(i) != 0 || sepMode) ? d.forkCalled : gMarks[i] != 0;       // separate process: the runner asked for a child
+            o << ":t" << (started ? "1" : "0") << hx(d.cats.size());
+            for (size_t j = 0; j < d.cats.size(); j++) o << d.cats[j];
+            o << hx((unsigned)d.calls) << hx((unsigned)d.conts) << (d.lost ? "1" : "0");
+        }
+        o << ":end" << hx(total) << (isFail ? "1" : "0") << hx(runCount) << hx(ignCount) << ((gLate || gRunaway) ? "1" : "0");
+        if (gSh->chunks) fputc(' ', stdout);
+        fputs(o.s.c_str(), stdout); fflush(stdout); gSh->chunks = gSh->chunks + 1;
+    }
+    gSh->done = 1;
+    return 0;
+}
+
+// the supervisor: one runner process per scenario
 static int mainLoop()
 {
     // default disposition for every signal, nothing blocked, no core files
     for (int s = 1; s < 32; s++) if (s != SIGKILL && s != SIGSTOP) signal(s, SIG_DFL);
     sigset_t none; sigemptyset(&none); sigprocmask(SIG_SETMASK, &none, 0);
     struct rlimit rl; rl.rlim_cur = rl.rlim_max = 0; setrlimit(RLIMIT_CORE, &rl);
-    gMarks = (volatile unsigned char*)mmap(0, 4096, PROT_READ | PROT_WRITE, MAP_SHARED | MAP_ANONYMOUS, -1, 0);
-    if (gMarks == MAP_FAILED) { perror("mmap"); return 3; }
-    struct sigaction sa; memset(&sa, 0, sizeof sa); sa.sa_flags = SA_RESTART; sigemptyset(&sa.sa_mask);
-    sa.sa_handler = onAlarm; sigaction(SIGALRM, &sa, 0);
-    sa.sa_handler = onCont; sigaction(SIGCONT, &sa, 0);
+    gSh = (Shared*)mmap(0, sizeof(Shared), PROT_READ | PROT_WRITE, MAP_SHARED | MAP_ANONYMOUS, -1, 0);
+    if (gSh == MAP_FAILED) { perror("mmap"); return 3; }
     PlatformSpecificFork = forkWrapper;
     PlatformSpecificWaitPid = waitWrapper;
 
-    Toks t; Out o;
+    Toks t;
     while (readline(t)) {
-        gT.clear(); gCur = -1; gLate = 0; gRunaway = false; gLiveChild = 0;
-        gRunIgn = false;
-        if (t.peek() == ":ri") { t.next(); gRunIgn = true; }
-        gAllSep = t.n() != 0;
-        int n = t.n();
-        if (n > 4000) { fprintf(stderr, "harness: too many tests\n"); exit(3); }
-        for (int i = 0; i < n; i++) {
-            TestDef d; d.kind = 0; d.ign = false; d.fail = false; d.forkOk = true; d.calls = 0; d.conts = 0; d.cpid = 0; d.forkCalled = false; d.lost = false;
-            if (t.peek() == ":ign") { t.next(); d.ign = true; }
-            std::string k = t.sym();
-            if (k == "plain") { d.kind = 0; d.fail = t.n() != 0; }
-            else if (k == "scr") {
-                d.kind = 1; d.forkOk = t.n() != 0;
-                int m = t.n();
-                for (int j = 0; j < m; j++) {
-                    std::string wk = t.sym(); Wout w; w.kind = 2; w.status = 0;
-                    if (wk == "ei") w.kind = 0;
-                    else if (wk == "er") { w.kind = 1; w.status = t.n(); }      // errno of the failing wait
-                    else if (wk == "x") w.status = (t.n() & 255) << 8;                       // the kernel's packing of a status word
-                    else if (wk == "k") { int sg = t.n(); int core = t.n(); w.status = (sg & 127) | (core ? 128 : 0); }
-                    else if (wk == "s") w.status = ((t.n() & 255) << 8) | 0x7f;
-                    else if (wk == "c") w.status = 0xffff;
-                    else { fprintf(stderr, "harness: bad outcome %s\n", wk.c_str()); exit(3); }
-                    d.ws.push_back(w);
-                }
-            }
-            else if (k == "real") {
-                d.kind = 2;
-                for (int p = 0; p < 5; p++) d.ph[p] = parseActs(t);
-                int m = t.n();
-                for (int j = 0; j < m; j++) { std::string ik = t.sym(); d.inj.push_back(ik == "ei" ? 0 : ik == "er" ? 1 : 2); }
-            }
-            else { fprintf(stderr, "harness: bad test %s\n", k.c_str()); exit(3); }
-            gT.push_back(d);
+        parseScenario(t);
+        gSh->pass = 0; gSh->late = 0; gSh->done = 0; gSh->chunks = 0;
+        fflush(stdout);
+        pid_t runner = fork();
+        if (runner < 0) { perror("fork"); return 3; }
+        if (runner == 0) {
+            prctl(PR_SET_PDEATHSIG, SIGKILL);
+            struct sigaction sa; memset(&sa, 0, sizeof sa); sa.sa_flags = SA_RESTART; sigemptyset(&sa.sa_mask);
+            sa.sa_handler = onAlarm; sigaction(SIGALRM, &sa, 0);
+            sa.sa_handler = onCont; sigaction(SIGCONT, &sa, 0);
+            int rc = runScenario();
+            fflush(stdout);
+            _exit(rc);
         }
-        memset((void*)gMarks, 0, 4096);
-        size_t total = 0, runCount = 0, ignCount = 0; bool isFail = false;
-        {
-            TestRegistry reg;
-            TestRegistry* savedReg = TestRegistry::getCurrentRegistry();
-            reg.setCurrentRegistry(&reg);
-            ActionPlugin plugin;
-            reg.installPlugin(&plugin);
-            std::vector<UtestShell*> shells; std::vector<std::string> names;
-            for (int i = 0; i < n; i++) names.push_back("T" + std::to_string(i));
-            for (int i = 0; i < n; i++) {
-                if (gT[i].ign) shells.push_back(new IgnoredScriptedShell(i, names[i].c_str()));
-                else shells.push_back(new ScriptedShell(i, names[i].c_str()));
-            }
-            for (int i = n - 1; i >= 0; i--) {           // addTest puts the new test in front
-                if (gT[i].kind != 0 && !gAllSep) shells[i]->setRunInSeperateProcess();   // own flag only without the registry-wide one
-                reg.addTest(shells[i]);
-            }
-            if (gAllSep) reg.setRunTestsInSeperateProcess();
-            if (gRunIgn) reg.setRunIgnored();
-            RecOutput out;
-            TestResult result(out);
-            setDeadline(deadlineMs());
-            reg.runAllTests(result);
-            setDeadline(0);
-            if (gLate) gLates++;
-            total = result.getFailureCount(); runCount = result.getRunCount(); ignCount = result.getIgnoredCount(); isFail = result.isFailure();
-            reg.setCurrentRegistry(savedReg);
-            for (int i = 0; i < n; i++) delete shells[i];
+        int st = 0;
+        for (;;) {
+            pid_t r = waitpid(runner, &st, WUNTRACED);
+            if (r < 0 && errno == EINTR) continue;
+            if (r < 0) { perror("waitpid"); return 3; }
+            break;
         }
-        // children the runner left behind
-        for (int i = 0; i < n; i++) {
-            TestDef& d = gT[i];
-            if (d.cpid <= 0) continue;
-            int st = 0; pid_t r = waitpid(d.cpid, &st, WNOHANG);
-            if (r == d.cpid) d.lost = true;
-            else if (r == 0) { d.lost = true; kill(d.cpid, SIGKILL); waitpid(d.cpid, &st, 0); }
+        if (WIFSTOPPED(st)) {                          // nobody would ever continue it
+            int sg = WSTOPSIG(st);
+            kill(runner, SIGKILL);
+            while (waitpid(runner, &st, 0) < 0 && errno == EINTR) {}
+            printf("%s:died %x :stopped %x\n", gSh->chunks ? " " : "", (unsigned)gSh->pass, (unsigned)sg);
         }
-        for (int i = 0; i < n; i++) {
-            TestDef& d = gT[i];
-            bool started = (d.ign && !gRunIgn) ? (d.forkCalled || gMarks[i] != 0)          // not to run at all
-                         : (d.kind != 0 || gAllSep) ? d.forkCalled : gMarks[i] != 0;       // separate process: the runner asked for a child
-            o << ":t" << (started ? "1" : "0") << hx(d.cats.size());
-            for (size_t j = 0; j < d.cats.size(); j++) o << d.cats[j];
-            o << hx((unsigned)d.calls) << hx((unsigned)d.conts) << (d.lost ? "1" : "0");
-        }
-        o << ":end" << hx(total) << (isFail ? "1" : "0") << hx(runCount) << hx(ignCount) << ((gLate || gRunaway) ? "1" : "0");
-        o.flush();
+        else if (WIFSIGNALED(st)) printf("%s:died %x :killed %x\n", gSh->chunks ? " " : "", (unsigned)gSh->pass, (unsigned)WTERMSIG(st));
+        else if (WEXITSTATUS(st) != 0 || !gSh->done) printf("%s:died %x :exited %x\n", gSh->chunks ? " " : "", (unsigned)gSh->pass, (unsigned)WEXITSTATUS(st));
+        else printf("\n");
+        fflush(stdout);
+        if (gSh->late) gLates++;
     }
     return 0;
 }
